@@ -94,8 +94,8 @@ def run(tier, seed):
     common.build_mmdump()
     common.build_mmdump(debug=True)
     mirs = common.prog_mirs()
-    files = common.corpus_files(['cl', 'fx'])
-    files = [f for f in files if os.path.basename(f).startswith(('cl_', 'closure', 'hof', 'box', 'enum', 'generic', 'placeholder', 'recursion', 'parameter_pack', 'record', 'pipe', 'loopcounter'))]
+    files = common.corpus_files(['cl', 'fx', 'sc'])
+    files = [f for f in files if os.path.basename(f).startswith(('sc_', 'scheduler', 'cl_', 'closure', 'hof', 'box', 'enum', 'generic', 'placeholder', 'recursion', 'parameter_pack', 'record', 'pipe', 'loopcounter'))]
     N = 3 if quick else 6
     budget = 90 if quick else 400
     jobs = [('analysis', dict(cls=('checks.c12', 'LeakAnalysis'), path=f, mir_paths=mirs, steps=2 * N, mode='bmc', query_timeout_ms=5000 if quick else 30000,
@@ -135,5 +135,5 @@ def run(tier, seed):
     cov = dict(states=max(1, npaths), transitions=max(1, rep.stats['queries'] + npaths), traces_validated_against_impl=rep.replays, programs=len(rep.programs), N=N,
                bounds='closure corpus (cl_*) + the repository closure / higher-order / record fixtures the engines support; 2N = %d dsp steps, counts compared after sample N and 2N on every feasible path; inputs symbolic' % (2 * N))
     assumptions = ['slotmap 1.0.7 modelled from its source (slots, free list, versions); Rc/RefCell identity wrappers', 'boxed recursive variants (CloneUserSum/ReleaseUserSum) need the global type interner: those fixtures are skipped (listed)',
-                   'scheduler-created closures are not covered here']
+                   'scheduler programs (sc_*, scheduler_* fixtures) run with the real plugin code on both runtimes (checks/schedrt.py); real threads are not modelled']
     return rep.finish(cov, assumptions)
